@@ -36,7 +36,7 @@ NOTE_FORMS = {
     "trailing-ws": [f"- {MZ} note ending in a blank-looking line", "  continued", "   "],
 }
 POSITIONS = ["first", "middle", "last", "only-in-block", "under-h1", "under-h2", "before-comment", "before-header"]
-MENTIONS = ["none", "earlier-note", "later-note", "earlier-zid-link", "self", "earlier-bullet", "earlier-longer-zid"]
+MENTIONS = ["none", "earlier-note", "later-note", "earlier-zid-link", "self", "earlier-bullet", "earlier-longer-zid", "earlier-case-twin"]
 OWN_TAGS = ["none", "same-as-inherited", "extends-inherited", "own-keys-end-with-inherited-keys"]
 DESTS = ["missing-no-template", "missing-template", "header-only", "header-blank", "block-nl", "block-no-nl",
          "block-two-blank", "block-then-section", "ends-with-section-header", "mentions-zid",
@@ -67,6 +67,9 @@ def build_source(form, pos, mention, own):
     elif mention == "earlier-longer-zid":
         # the neighbour above carries a three-character ZID that BEGINS with the moved ZID
         a = f"- {MZ}1 neighbour one"
+    elif mention == "earlier-case-twin":
+        # the neighbour above carries the moved ZID in the other letter case
+        a = "- " + MZ[:7] + MZ[7:].lower() + " neighbour one"
     elif mention == "earlier-bullet":
         # an earlier note has a nested bullet that starts with the ZID
         a += f"\n  * related:\n    - {MZ} see this one"
